@@ -67,6 +67,9 @@ func VerifH_C10_Publish() {
 		done <- struct{}{}
 	}()
 	conn.inject(refEncodePublish([]byte("t"), 9, 1, false, false, []byte{7}))
+	// and an inbound QoS 2 flow: PUBREC and PUBCOMP are written by the reader goroutine too
+	conn.inject(refEncodePublish([]byte("t"), 10, 2, false, false, []byte{8}))
+	conn.inject(refEncodeAck(0x62, 10))
 	verifOnQuiescence(func() {
 		verifReach("end")
 		cancel()
